@@ -35,7 +35,7 @@ PROPS = {
     },
     "C11": {
         "streams": streams(("client", 4000, 120000, "-tier", "TIER"), ("scale", 2, 4), ("history", 8, 32)),
-        "rule": "all 16 flag sets x method strings x parameters (absent, JSON values, unencodable) for Send against a recording peer; reply streams of 0-4 frames (valid replies, error frames incl. the four org.varlink.service errors with right/wrong/ill-typed payload, wrong-shape JSON, byte mutations, random bytes, frames > 4 KiB) x segmentations x server death at a random byte offset, receive called frames+2 times; non-trivial = a stream that ends inside a frame",
+        "rule": "(history) short fixed histories whose state must not outlive an operation: a Send given up on an unbuffered pipe followed by calls (the peer sees only the later calls), a connection closed with received but unread replies followed by a new connection that calls and upgrades, an interface registered between two serving runs on one Service under the same context (a call answered InterfaceNotFound before reaches it afterwards), a plain call after a `more` call answered to its end (the handler sees the flags of the call it handles); all 16 flag sets x method strings x parameters (absent, JSON values, unencodable) for Send against a recording peer; reply streams of 0-4 frames (valid replies, error frames incl. the four org.varlink.service errors with right/wrong/ill-typed payload, wrong-shape JSON, byte mutations, random bytes, frames > 4 KiB) x segmentations x server death at a random byte offset, receive called frames+2 times; non-trivial = a stream that ends inside a frame",
         "trusted_base": [JSON_TB, "bufio.Reader modelled (lean/Varlink/Frame.lean)", "white-box constructor VerifNewConnection (overlay) wraps a scripted net.Conn exactly as NewConnection wraps a dialled one"],
         "assumptions": [],
     },
@@ -47,7 +47,7 @@ PROPS = {
     },
     "C03": {
         "streams": streams(("e2e", 1200, 30000), ("jsonself", 2500, 200000), ("jsonstruct", 4000, 300000), ("scale", 14, 56), ("history", 8, 32), ("client", 1500, 40000, "-tier", "TIER")),
-        "rule": "(scale) one dimension far beyond the replayed cases between real client and real service: frames of 1 MiB .. 16 MiB + 1 in both directions, 70 / 300 connections open at once, 5000 / 20000 calls on one connection, a more call with 20000 / 70000 replies, a connection closed twice followed by 3 connections open at once (each gets only its own replies), two 1 MiB replies on two connections under way at the same time; real Connection <-> real Service over filesystem unix socket, abstract unix socket, TCP loopback and a bridge subprocess (cycled); 1-3 calls per connection with generated JSON objects as parameters (integers beyond 2^53, exponents, -0, empty objects, null members, unicode, up to 200 KiB), more-sequences of 0-50 replies, error replies, oneway calls; compared: what the handler reads via GetParameters, every value / continues bit / error the client's receive returns; non-trivial = parameters with nesting >= 2",
+        "rule": "(history) short fixed histories whose state must not outlive an operation: a Send given up on an unbuffered pipe followed by calls (the peer sees only the later calls), a connection closed with received but unread replies followed by a new connection that calls and upgrades, an interface registered between two serving runs on one Service under the same context (a call answered InterfaceNotFound before reaches it afterwards), a plain call after a `more` call answered to its end (the handler sees the flags of the call it handles); (scale) one dimension far beyond the replayed cases between real client and real service: frames of 1 MiB .. 16 MiB + 1 in both directions, 70 / 300 connections open at once, 5000 / 20000 calls on one connection, a more call with 20000 / 70000 replies, a connection closed twice followed by 3 connections open at once (each gets only its own replies), two 1 MiB replies on two connections under way at the same time; real Connection <-> real Service over filesystem unix socket, abstract unix socket, TCP loopback and a bridge subprocess (cycled); 1-3 calls per connection with generated JSON objects as parameters (integers beyond 2^53, exponents, -0, empty objects, null members, unicode, up to 200 KiB), more-sequences of 0-50 replies, error replies, oneway calls; compared: what the handler reads via GetParameters, every value / continues bit / error the client's receive returns; non-trivial = parameters with nesting >= 2",
         "trusted_base": [JSON_TB, "the four transports are assumed to be reliable ordered byte pipes (sampled, not proved)"],
         "assumptions": ["values are valid UTF-8 for the exact-equality theorems; invalid UTF-8 is replaced by U+FFFD exactly as encoding/json does (theorem parseDoc_render_sanitize, and compared on the wire)"],
     },
